@@ -8,14 +8,14 @@ VERIF = os.path.dirname(os.path.dirname(os.path.abspath(__file__)))
 CHECKS = {
     "C17": dict(
         category="model_checking", design_ref="DESIGN.md §7 C17",
-        technique="TLA+ bit-set model of the shift/or/mask network (constants extracted from morton.go), TLC exhaustive on generators; TLC vectors replayed into ToZ/FromZ; records of the real code validated against the model by TLC",
+        technique="TLA+ bit-set model of the shift/or/mask network (constants extracted from morton.go), TLC exhaustive on generators; TLC vectors replayed into ToZ/FromZ; records of the real code validated against the model by TLC; TLAPS proof of union-linearity of every stage (MortonProofs.tla)",
         text="TLC checks exhaustively (17 457 generator pairs, every stage a state) that the network read out of morton.go equals bit interleaving, inverts, and commutes with the parent shift; every TLC vector is replayed through the real ToZ/FromZ, and records of the real code on random wide words (key, ok flag, union-linearity, parent, child keys, decode) are judged by the same model, which lifts the generator check to all 2^64 pairs.",
         note="Trusted: Go uint is 64-bit with set-like |,&,<<,>>; the transcription of the loop bodies (bound by replay and trace records); TLC."),
 }
 
 CHECKS["C02"] = dict(
     category="model_checking", design_ref="DESIGN.md §7 C02",
-    technique="TLA+ routing oracle (Grid!Route, exact half-open clip) enumerated by TLC over every lattice segment of a pixel window x hot sets; each TLC vector replayed into PointIndex.SnapClosestPoints at several quadtree placements/levels; random real-code records validated by TLC against the same oracle",
+    technique="TLA+ routing oracle (Grid!Route, exact half-open clip) enumerated by TLC over every lattice segment of a pixel window x hot sets; each TLC vector replayed into PointIndex.SnapClosestPoints at several quadtree placements/levels; random real-code records validated by TLC against the same oracle; per-segment steps inside SnapPolygon (SnapSteps.tla S1/S2); endpoint-pixel consistency on the built-in grids (RouteRealTrace.tla); design theorem Descent = Route",
     text="The specification defines 'closed edge meets half-open pixel' and the order of travel exactly (cross-multiplied integer fractions) and is itself cross-checked by TLC against a brute-force definition on a refined lattice. TLC enumerates every segment of the window (every tie case: endpoint on border/corner, edge along a border, edge through a corner) with several hot sets; each is replayed through the real index at 4-12 placements (different depth, origin, tile width, level, alignment to the quadtree centre and corners), and random records from larger windows are validated by TLC.",
     note="Trusted: TLC; synthetic dyadic grids convert exactly (asserted per coordinate); the non-collapsing-polygon sentence is decided by the Snap trace specification.")
 CHECKS["C09"] = dict(
@@ -57,7 +57,7 @@ CHECKS["C08"] = dict(
     note=SNAPNOTE)
 CHECKS["C18"] = dict(
     category="model_checking", design_ref="DESIGN.md §7 C18",
-    technique="trace validation against SnapTrace.tla: TLC routes the boundary itself, evaluates the at-most-twice antecedent, and checks edge-is-run, holes-in-shell and signed-area equality on the recorded result",
+    technique="trace validation against SnapTrace.tla: TLC routes the boundary itself, evaluates the at-most-twice antecedent, and checks edge-is-run, holes-in-shell and signed-area equality on the recorded result; intermediate results of addPointsAndSnap validated against the contract of the Snap machine (SnapSteps.tla S3-S6)",
     text="Collapse-prone valid polygons (slivers, combs, necks, frames, serpentines); vacuity is guarded: the evidence counts (record, level) pairs where the antecedent holds and some centre is visited twice, and the check is broken below a floor.",
     note=SNAPNOTE)
 
@@ -69,7 +69,7 @@ CHECKS["C10"] = dict(
     note=PIPENOTE)
 CHECKS["C11"] = dict(
     category="model_checking", design_ref="DESIGN.md §7 C11",
-    technique="TLC: safety, deadlock freedom and termination under weak fairness of Pipeline.tla (unbuffered and buffered); trace validation of real runs where Return is only enabled after every TgtDone, with hang / leaked-goroutine / panic facts never accepted; one writer's completion is held to expose a premature return",
+    technique="TLC: safety, deadlock freedom and termination under weak fairness of Pipeline.tla (unbuffered and buffered); trace validation of real runs where Return is only enabled after every TgtDone, with hang / leaked-goroutine / panic facts never accepted; one writer's completion is held to expose a premature return; runs with the real GeoPackage source and targets from a race-detector build (GpkgPipeTrace.tla)",
     text="Design: every interleaving for small constants including the caller's re-assignment of the table between runs. Code: each real run is validated against the trace specification; a run that does not finish within 20 s with its goroutines blocked in processing.* is recorded as a Hang event, goroutines left behind as a non-zero leak count - neither is a behaviour of the specification.",
     note=PIPENOTE + " Data-race freedom of the real GeoPackage writers is observed by the race detector in the C12/C13 drivers and logged as a fact.")
 
